@@ -91,4 +91,13 @@ example : clausePreload { preloads := ["p1", "p2", "p3"] } [.tEpilog, .tPreload 
 -- ... and a file loaded only after backend() was entered does not count
 example : clausePreload { preloads := ["p1"] } [.tEpilog, .start, .tPreload "p1", .cycle 1, .exitLoop] ≠ [] := by decide
 
+-- clause isolation (the string-level examples are in the plugin's oracle self-test): a line delivered in iteration 3
+-- and served in iteration 10 is late for bound 4; served in iteration 4 it is not; waiting behind the user's OWN
+-- earlier lines does not count
+example : lateLine 4 1 0 [3] [10] = some (1, 7) := by decide
+example : lateLine 4 1 0 [3] [4] = none := by decide
+example : lateLine 4 1 0 [3, 3, 3, 3, 3, 3, 3, 3] [3, 4, 5, 6, 7, 8, 9, 10] = none := by decide
+example : servedCycles (.user 2) 0 [.start, .cycle 1, .tInput (.user 1) "a", .cycle 2, .tInput (.user 2) "x",
+    .tIt (.user 2) "s" "y"] = [2, 2] := by decide
+
 end NV.C09
